@@ -32,12 +32,13 @@ def alphabet():
     return {
         "a": "a", "f": "f", "nx": A.MISSING, "root": A.ROOTNAME, "rootbar": A.SIBNAME, ".": ".", "..": "..", "": "",
         "nul": "a\0b", "bs": "..\\" + A.SIBNAME, "pct2e": "%2e%2e", "pct2f": "..%2f" + A.SIBNAME, "xff": "\xff",
-        "star": "*", "sp": "a b", "nx.ext": "nx.ext", "index.html": "index.html",
+        "star": "*", "sp": "a b", "nx.ext": "nx.ext", "index.html": "index.html", "e": "e",
     }
 
 
-CORE = ["a", "f", "nx", "root", "rootbar", ".", "..", "", "nul"]
+CORE = ["a", "e", "f", "nx", "root", "rootbar", ".", "..", "", "nul"]
 FULL = CORE + ["bs", "pct2e", "pct2f", "xff", "star", "sp"]
+DEEP = ["a", "f", "nx", "rootbar", ".", "..", "", "root"]
 
 
 def concrete(syms, abssib=None):
@@ -257,7 +258,7 @@ def describe(t, i):
 
 
 def report(ctx, traces, rej):
-    for x in rej[:200]:
+    for x in rej:
         t = traces[x.idx]
         if x.reached >= len(t["ev"]):
             continue
@@ -313,15 +314,24 @@ def run(ctx):
     from twisted.logger import globalLogBeginner
     globalLogBeginner.beginLoggingTo([lambda e: None], redirectStandardIO=False, discardBuffer=True)
 
-    r = ctx.mc("PathFtpMC", ctx.pick("PathFtpMC.cfg", "PathFtpMC.thorough.cfg"))
+    # (no -coverage: TLC's cost accounting of the recursive path operators makes this model several hundred times
+    #  slower; the vacuity guard is taken from the transition cover the run prints instead)
+    r = ctx.mc("PathFtpMC", ctx.pick("PathFtpMC.cfg", "PathFtpMC.thorough.cfg"), coverage=False)
     if not r.ok:
         if r.kind in ("invariant", "property"):
-            # a design-level counterexample: the session model leaves the root.  Reported through the real code only.
-            ctx.extra["design_counterexample"] = r.error[:400]
-        else:
-            raise MachineryError("PathFtpMC failed: " + r.error)
-    else:
-        ctx.require_actions("PathFtpMC", ["DoCwd", "DoList", "DoRetr", "DoStat", "DoStor", "DoMkd", "DoRmd", "DoDele", "DoRnfr", "DoRnto", "DoBadSeq"])
+            raise MachineryError("the FTP session model itself leaves the root (PathFtpMC): " + r.error + "\n" + "".join(r.cex[-2:])[:1500])
+        raise MachineryError("PathFtpMC failed: " + r.error)
+    behs = cover_sessions(r.out)
+    taken = {}
+    for b in behs:
+        h = b["hist"][-1]
+        key = h["cmd"] + ("+" if h["ok"] else "-")
+        taken[key] = taken.get(key, 0) + 1
+    missing = [k for k in ("CWD+", "CWD-", "LIST+", "RETR+", "RETR-", "SIZE+", "STOR+", "STOR-", "MKD+", "MKD-", "RMD+", "RMD-",
+                           "DELE+", "DELE-", "RNFR+", "RNTO+", "RNTO-") if not taken.get(k)]
+    if missing:
+        raise MachineryError("vacuity: the FTP model never took: %s" % missing)
+    ctx.extra["model_transitions_by_command"] = taken
 
     ns = A.Namespace(os.path.join(ctx.work, "ns"))
     server = Server(ns, reactor)
@@ -339,7 +349,7 @@ def run(ctx):
                 nex += len(b)
     # one component more for the deepest working directory
     for verbs in (("CWD", "RETR"), ("STOR", "RNTO")) if ctx.quick else (READ_VERBS, WRITE_VERBS):
-        for b in batches(exhaustive_lines(verbs, CORE[:8], L + 1, L + 1, WDS[2]), K):
+        for b in batches(exhaustive_lines(verbs, DEEP, L + 1, L + 1, WDS[2]), K):
             traces.append(run_session(server, False, ["CWD " + WDS[2]] + b))
             nex += len(b)
     # anonymous shell
@@ -354,9 +364,6 @@ def run(ctx):
         traces.append(run_session(server, rng.random() < 0.2, random_session(rng, ns, rng.randint(10, 40))))
     # spec -> code: the model's transition cover (printed by TLC during the exhaustive run) replayed as sessions
     # on the real server; the model's predicted reply class and accesses are compared with the real ones.
-    behs = cover_sessions(r.out)
-    if not behs:
-        raise MachineryError("PathFtpMC printed no cover sessions")
     ncover = len(behs)
     if ctx.quick and len(behs) > 300:
         behs = [behs[i] for i in sorted(rng.sample(range(len(behs)), 300))]
@@ -392,9 +399,12 @@ def run(ctx):
     for k in ("open", "list", "create", "rename", "delete"):
         if not kinds.get(k):
             raise MachineryError("vacuity: no %r access was ever recorded" % k)
-    rej = ctx.validate("PathNSTrace", [spec_view(t) for t in traces], shard_size=ctx.pick(60, 150))
-    report(ctx, traces, rej)
+    # PathNSTrace records an unexplained command and goes on, so every command of every session is checked
+    rej = ctx.validate("PathNSTrace", [spec_view(t) for t in traces], shard_size=max(40, -(-len(traces) // ctx.pick(4, 16))), count=False)
     bad = {x.idx for x in rej}
+    ctx.traces_ok += len(traces) - len(bad)
+    ctx.extra["commands_rejected"] = len(rej)
+    report(ctx, traces, rej)
     good = [spec_view(t) for i, t in enumerate(traces) if i not in bad]
     pool = [good[i] for i in sorted(rng.sample(range(len(good)), min(40, len(good))))]
     ctx.selftest_rejects("PathNSTrace", pool, mutate, n=24)
